@@ -105,6 +105,13 @@ class PathT:
         if parts_only:
             return ps
         p = v.DataPath(*ps, source_data=self.src) if self.has_src else v.DataPath(*ps)
+        warm = getattr(self, "warm", None)
+        if warm is not None:
+            # a path object that has already been used when its modifiers are derived: deriving must not depend on history
+            try:
+                p.get_data(warm[0]) if not self.has_src else p.get_data()
+            except Exception:
+                pass
         for m in self.mods:
             p = getattr(p, m)()
         return p
